@@ -216,6 +216,7 @@ func checkC10(c *Ctx) {
 	runs := findRunFuncs(c.P, []string{""})
 	checkBlockingInventory(c, []string{""}, runs, 55)
 	checkSubscriptionTable(c)
+	checkFilterSubscriptionTable(c) // "the caches stay current": every ok∧ready parent event is applied, whatever the state of the consumer's buffer
 	checkFSubDistribute(c)
 	checkHandlerCallers(c)
 	checkEventPathSingleSender(c)
